@@ -1,6 +1,7 @@
 package main
 
 import (
+	"encoding/json"
 	"fmt"
 	"os"
 	"time"
@@ -14,6 +15,30 @@ func main() {
 	switch os.Args[1] {
 	case "check":
 		os.Exit(checkMain(os.Args[2:]))
+	case "plans":
+		// the plans as JSON (used by tools/mkdesign.py to generate the per-property section of DESIGN.md)
+		b, _ := json.MarshalIndent(plans, "", " ")
+		fmt.Println(string(b))
+	case "replay":
+		// ./check replay <replay.json>: print how to re-run a stored replay
+		if len(os.Args) < 3 {
+			fmt.Println("usage: govc replay <replay.json>")
+			os.Exit(2)
+		}
+		b, err := os.ReadFile(os.Args[2])
+		if err != nil {
+			fmt.Println(err)
+			os.Exit(2)
+		}
+		var rp map[string]any
+		json.Unmarshal(b, &rp)
+		fmt.Println("obligation:", rp["obligation"])
+		fmt.Println("verdict:   ", rp["why"])
+		if t, ok := rp["replay_test"].(string); ok {
+			fmt.Println("how to run:", rp["replay_cmd"])
+			fmt.Println("---- replay_test ----")
+			fmt.Println(t)
+		}
 	case "fn":
 		t0 := time.Now()
 		e, err := loadEngine("/repo", "/verif/contracts")
